@@ -625,7 +625,7 @@ def run(chk, replay=None):
     bcov.start()
     rng = chk.rng
     quick = chk.tier == 'quick'
-    n_fwd = 24 if quick else 100
+    n_fwd = 20 if quick else 100
     n_inv = 24 if quick else 260
     n_conv = 1 if quick else 4
     chk.coverage['rule'] = ('each case = (direction, frequency variable, signal); a signal is a sum of 1-3 pieces c*mod(theta)*K(a*v+b) with K from the '
@@ -666,7 +666,7 @@ def run(chk, replay=None):
         raise LcapyTimeout()
 
     signal.signal(signal.SIGALRM, _alarm)
-    tlimit = 12 if quick else 20
+    tlimit = 8 if quick else 20
 
     def limited(fn, *a, **kw):
         """run a call into the real code under a wall-clock limit (SymPy's integrators occasionally do not return)"""
@@ -1061,17 +1061,26 @@ def run(chk, replay=None):
                                    'conversion method and call syntax disagree')
     tick('conversions')
     # ---- 3e. Laplace -> Fourier route for causal, absolutely integrable signals
-    n_lap = 6 if quick else 60
+    n_lap = 9 if quick else 60
     for i in range(n_lap):
         npieces = rng.choice([1, 2])
         eps = []
         for _ in range(npieces):
             al = Fraction(rng.choice([1, 2, 3, 5]), rng.choice([1, 2]))
             eps.append(Piece(rand_coef(rng), 'none', 0, 'expu:%d:%s:0' % (rng.choice([0, 0, 1, 2]), fstr(al)), 1, 0))
+        # every third case: a causal signal whose Laplace transform has poles ON the imaginary axis (step, switched-on sinusoid):
+        # the s -> j omega shortcut does not apply, the spectrum has Dirac deltas (judged by the Fourier spec only)
+        marginal = (i % 3 == 2)
+        if marginal:
+            eps = eps[:1] + [rng.choice([Piece(rand_coef(rng), 'none', 0, 'step', 1, 0),
+                                         Piece(rand_coef(rng), 'cos', rng.choice([1, 2, 3]), 'step', 1, 0),
+                                         Piece(rand_coef(rng), 'sin', rng.choice([1, 2]), 'step', 1, 0)])]
+            if i % 2 == 0:
+                eps = eps[1:]
         text = ' + '.join(p.text('t') for p in eps)
         toks = term_tokens([t for p in eps for t in p.terms()])
         for dom in (DOMS if i % 2 == 0 else ['f', 'omega']):
-            chk.count('laplace-route', dom)
+            chk.count('laplace-route', dom + (':imaginary-axis-poles' if marginal else ''))
             try:
                 H = limited(lambda: mk(text, 't')(ls))
                 Y = limited(lambda: H(LV[dom], causal=True))
@@ -1090,11 +1099,11 @@ def run(chk, replay=None):
                 v = drv.ask1('ft.judge fwd %s %s %s %s | %s | %s' % (dom, fstr(pi0), fstr(dt0), fstr(x0), toks, ' ; '.join(ents)))
                 if v == 'resample':
                     continue
-                lv = drv.ask1('ft.laplacejudge %s %s %s %s | %s | %s' % (dom, fstr(pi0), fstr(dt0), fstr(x0), toks, ' ; '.join(ents)))
+                lv = 'true' if marginal else drv.ask1('ft.laplacejudge %s %s %s %s | %s | %s' % (dom, fstr(pi0), fstr(dt0), fstr(x0), toks, ' ; '.join(ents)))
                 chk.case(('laplace', dom, text), True)
                 if not v.startswith('true') or not lv.startswith('true'):
                     counterexamples[0] += 1
-                    chk.counterexample({'kind': 'laplace-route', 'variable': dom},
+                    chk.counterexample({'kind': 'laplace-route', 'variable': dom, 'imaginary_axis_poles': marginal},
                                        {'input': {'expression': text, 'variable': dom, 'terms': toks, 'call': 'x(s)(%s, causal=True)' % dom},
                                         'lcapy': str(Y.sympy)[:300], 'spec': 'X(%s) must equal the Laplace transform at s = j*2*pi*f: fourier=%s laplace=%s' % (dom, v, lv),
                                         'point': {'pi': fstr(pi0), 'dt': fstr(dt0), 'x0': fstr(x0)}},
